@@ -1,5 +1,5 @@
 #!/usr/bin/env python3
-"""tools/selftest.py [-j N] [ID ...]  - run the mutation lines of selftest/<ID>.mutations.txt and compare each verdict with
+"""tools/selftest.py [-j N] [--sample K/M] [ID ...]  - run the mutation lines of selftest/<ID>.mutations.txt and compare each verdict with
 the expectation written next to it.  A regression test of the checkers themselves: every firing mutation must still make
 its check exit 1, every behaviour-preserving edit must stay silent (exit 0).
 
@@ -7,6 +7,7 @@ Line formats understood (the files were written by different authors):
     <expected> | <key> | tools/mut.sh NAME IDS -- "CMD"
     tools/mut.sh NAME IDS -- "CMD"   # expect: exit=1 ...      (also `#=> exit 1`, `=> exit 0`)
     # expected: VIOLATION ... / # expect exit 1 ... / # expected: silent ...      (comment line before the command)
+--sample K/M keeps the lines whose name hashes to K modulo M (a deterministic 1/M sample; M runs with K = 0..M-1 cover all).
 Output: one line per mutation `ok|MISMATCH|unknown NAME IDS expected=.. got=..`, summary at the end; exit 1 on a mismatch."""
 import sys, os, re, glob, subprocess, concurrent.futures
 ROOT = os.path.dirname(os.path.dirname(os.path.abspath(__file__)))
@@ -53,9 +54,14 @@ def run(item):
 def main():
     args = sys.argv[1:]; jobs = 8
     if args[:1] == ['-j']: jobs = int(args[1]); args = args[2:]
+    sample = None
+    if args[:1] == ['--sample']: sample = tuple(int(x) for x in args[1].split('/')); args = args[2:]
     files = [os.path.join(ROOT, 'selftest', a + '.mutations.txt') for a in args] or sorted(glob.glob(os.path.join(ROOT, 'selftest', 'C*.mutations.txt')))
     items = []
     for f in files: items += parse(f)
+    if sample:
+        import zlib
+        items = [it for it in items if zlib.crc32(it[0].encode()) % sample[1] == sample[0]]
     bad = 0; unk = 0
     with concurrent.futures.ThreadPoolExecutor(jobs) as ex:
         for name, ids, exp, got in ex.map(run, items):
